@@ -95,6 +95,10 @@ class TapExecutor(Executor):
         except BaseException as ex:
             E.emit("DelegateSubmitRaise", f=sub, k=self.n, s=self.tag, a=1)
             raise
+        try:
+            fut._mxv_sub = sub
+        except Exception:
+            pass
         tap_cancel(fut, sub, self.tag, self.n)
         self.futs.append(fut)
         E.emit("DelegateSubmitRet", f=sub, k=self.n, s=self.tag)
